@@ -37,13 +37,15 @@ instance (c : Composition) : Decidable (CompValid c) :=
       c.selections.Pairwise (fun a b => a.intersect b = false))
     ⟨fun ⟨a, b, c⟩ => ⟨a, b, c⟩, fun ⟨a, b, c⟩ => ⟨a, b, c⟩⟩
 
-/-- the dictionary answers nothing for the empty key (F39: an entry with zero syllables breaks this) -/
+/-- the dictionary answers nothing for the empty key (F39: an entry with zero syllables breaks this).  No
+    premise of the C03 theorems any more: `find_best_phrase` answers `None` for an empty range. -/
 def NoEmptyKey (d : Dict) : Prop := ∀ strat, d.lookup [] strat = []
 
 /-- every phrase has as many characters as its key has syllables (F27: the compiler does not check it) -/
 def WellFormed (d : Dict) : Prop := ∀ key strat, ∀ p ∈ d.lookup key strat, p.text.length = key.length
 
-/-- every syllable of the composition has a single-syllable word under the strategy (F02 / F30 otherwise) -/
+/-- every syllable of the composition has a single-syllable word under the strategy: the quantifier of the
+    one-character clause of C03 (otherwise every engine shows the spelling of the syllable, F30) -/
 def HasWord (d : Dict) (strat : Strategy) (c : Composition) : Prop :=
   ∀ k, Sym.syl k ∈ c.symbols → d.lookup [k] strat ≠ []
 
@@ -109,6 +111,46 @@ inductive Prov (d : Dict) (strat : Strategy) (c : Composition) : Interval → Pr
       Prov d strat c { start := m, stop := e, isPhrase := true, text := t₂ } →
       gapAt c m = some Gap.glue →
       Prov d strat c { start := s, stop := e, isPhrase := true, text := t₁ ++ t₂ }
+
+/-- no selection intersects position `i` -/
+def Free (c : Composition) (i : Nat) : Prop := c.selections.any (fun sel => sel.intersectRange i (i + 1)) = false
+
+instance (c : Composition) (i : Nat) : Decidable (Free c i) := inferInstanceAs (Decidable (_ = false))
+
+/-- the fallback interval of every engine (F30): a syllable without a word under the strategy that no
+    selection covers is shown, as an interval of its own, as its Bopomofo spelling
+    (`ChewingEngine::find_best_phrase`: `Phrase::new(syllable.to_string(), 0)`; `SimpleEngine`:
+    `sym.to_syllable().unwrap().to_string()`) -/
+def Spelled (d : Dict) (strat : Strategy) (c : Composition) (iv : Interval) : Prop :=
+  ∃ i k, c.symbols[i]? = some (Sym.syl k) ∧ d.lookup [k] strat = [] ∧ Free c i ∧
+    iv = { start := i, stop := i + 1, isPhrase := true, text := spell k }
+
+/-- provenance without `HasWord`: `Prov`, or the spelling of a word-less unselected syllable, or such
+    texts joined across `Glue` gaps (a fallback interval is a phrase interval for `glue_fn`) -/
+inductive ProvS (d : Dict) (strat : Strategy) (c : Composition) : Interval → Prop
+  | base {iv : Interval} : Prov d strat c iv → ProvS d strat c iv
+  | spell {iv : Interval} : Spelled d strat c iv → ProvS d strat c iv
+  | glue {s m e : Nat} {t₁ t₂ : Text} :
+      ProvS d strat c { start := s, stop := m, isPhrase := true, text := t₁ } →
+      ProvS d strat c { start := m, stop := e, isPhrase := true, text := t₂ } →
+      gapAt c m = some Gap.glue →
+      ProvS d strat c { start := s, stop := e, isPhrase := true, text := t₁ ++ t₂ }
+
+/-- the exact shape of an interval text over the symbols `[s, e)`: a concatenation of one piece per
+    symbol, each piece one character — except that a syllable without a word under the strategy that no
+    selection covers may be spelled out (the fallback interval, possibly glued to its neighbours) -/
+inductive SpelledText (d : Dict) (strat : Strategy) (c : Composition) : Nat → Nat → Text → Prop
+  | nil {s : Nat} : SpelledText d strat c s s []
+  | char {s e cp : Nat} {t : Text} : SpelledText d strat c (s + 1) e t → SpelledText d strat c s e (cp :: t)
+  | spell {s e k : Nat} {t : Text} : c.symbols[s]? = some (Sym.syl k) → d.lookup [k] strat = [] → Free c s →
+      SpelledText d strat c (s + 1) e t → SpelledText d strat c s e (spell k ++ t)
+
+/-- every buffered syllable has a non-empty spelling (true of every syllable the keyboard layouts or
+    the parser can build; `spell 0 = []`) -/
+def SpellNonempty (c : Composition) : Prop := ∀ k, Sym.syl k ∈ c.symbols → spell k ≠ []
+
+/-- no `Glue` gap strictly inside `[s, e)`: the interval is not the product of `glue_fn` -/
+def NoGlueInside (c : Composition) (s e : Nat) : Prop := ∀ m, s < m → m < e → gapAt c m ≠ some Gap.glue
 
 /-- the spelling shown by the simple engine for a syllable without a word (F30) -/
 def spellingShown (d : Dict) (c : Composition) (iv : Interval) : Prop :=
